@@ -380,3 +380,75 @@ func (c *Ctx) checkCounterBalance(rule string, pkgRel string, exempt map[string]
 	}
 	return n
 }
+
+// checkDeferredErrorLive: a deferred cleanup of the form
+// `defer func() { if err != nil { undo() } }()` only works if err can still
+// change after the defer statement: it must be a named result of the function
+// (which every `return e` assigns) or be assigned again later. If it is a local
+// that was just tested to be nil and every later error lives in a shadowing
+// `if err := …` scope, the cleanup is dead and the partial artefact (temp file,
+// lock, half-written directory) is left behind on every failure.
+func (c *Ctx) checkDeferredErrorLive(rule string, pkgRel string) int {
+	n := 0
+	for _, f := range c.funcs(c.pkg(pkgRel)) {
+		if f.Lit != nil {
+			continue
+		}
+		info := f.Info()
+		results := map[types.Object]bool{}
+		if f.Type.Results != nil {
+			for _, fl := range f.Type.Results.List {
+				for _, nm := range fl.Names {
+					results[info.Defs[nm]] = true
+				}
+			}
+		}
+		k := 0
+		ast.Inspect(f.Body, func(x ast.Node) bool {
+			ds, ok := x.(*ast.DeferStmt)
+			if !ok {
+				return true
+			}
+			lit, ok := ds.Call.Fun.(*ast.FuncLit)
+			if !ok {
+				return true
+			}
+			ast.Inspect(lit.Body, func(y ast.Node) bool {
+				is, ok := y.(*ast.IfStmt)
+				if !ok {
+					return true
+				}
+				be, ok := ast.Unparen(is.Cond).(*ast.BinaryExpr)
+				if !ok || be.Op != token.NEQ || !isNilIdent(be.Y) {
+					return true
+				}
+				o := identObj(info, be.X)
+				v, isVar := o.(*types.Var)
+				if !isVar || !isErrorType(v.Type()) || v.Pos() > lit.Pos() { // captured only
+					return true
+				}
+				k++
+				n++
+				live := results[o]
+				if !live {
+					// assigned after the defer statement (outside the deferred literal)?
+					ast.Inspect(f.Body, func(z ast.Node) bool {
+						if as, ok := z.(*ast.AssignStmt); ok && as.Pos() > ds.End() {
+							for _, l := range as.Lhs {
+								if id, isID := l.(*ast.Ident); isID && info.Uses[id] == o {
+									live = true
+								}
+							}
+						}
+						return true
+					})
+				}
+				c.check(rule, fmt.Sprintf("%s#defer%d", f.Name, k), is.Pos(), live,
+					"the deferred cleanup tests `"+exprString(be.X)+" != nil`, but that variable is neither a named result of the function nor assigned after the defer statement (later errors live in shadowing `if err := …` scopes): the cleanup never runs and the artefact it should remove is left behind on failure")
+				return true
+			})
+			return true
+		})
+	}
+	return n
+}
